@@ -164,6 +164,70 @@ def stray_pdu_scenario(kind):
         srv.shutdown()
 
 
+def stream_cancel_scenario(n_pending):
+    """Traffic in both directions at once: the acceptor streams `n_pending` C-FIND Pending responses (command set and
+    identifier, small PDUs) while the requestor sends a C-CANCEL after the third one, then releases.  The provider
+    threads of both sides see primitives to send and PDUs to read in the same iterations."""
+    import threading
+
+    from pydicom.dataset import Dataset
+    from pynetdicom import AE, evt
+    from pynetdicom.sop_class import PatientRootQueryRetrieveInformationModelFind as FIND
+
+    e2e.quiet()
+    before = set(e2e.pynet_threads())
+    rec_req, rec_acc = e2e.Recorder(), e2e.Recorder()
+    thread_errors = []
+    old_hook = threading.excepthook
+    threading.excepthook = lambda a: thread_errors.append((type(a.thread).__name__, a.exc_type.__name__ + ": " + str(a.exc_value)))
+    acc = {}
+
+    def on_find(event):
+        acc["a"] = event.assoc
+        for i in range(n_pending):
+            if event.is_cancelled:
+                yield 0xFE00, None
+                return
+            ds = Dataset()
+            ds.QueryRetrieveLevel = "PATIENT"
+            ds.PatientID = str(i)
+            ds.PatientName = "X" * 600
+            yield 0xFF00, ds
+
+    t_o = 5.0 * e2e.load_factor()
+    ae = AE()
+    ae.add_supported_context(FIND)
+    ae.maximum_pdu_size = 512
+    ae.acse_timeout = ae.dimse_timeout = ae.network_timeout = t_o
+    srv = ae.start_server(("127.0.0.1", 0), block=False, evt_handlers=rec_acc.handlers() + [(evt.EVT_C_FIND, on_find)])
+    try:
+        cl = AE()
+        cl.add_requested_context(FIND)
+        cl.maximum_pdu_size = 512
+        cl.acse_timeout = cl.dimse_timeout = cl.network_timeout = t_o
+        a = cl.associate("127.0.0.1", srv.socket.getsockname()[1], evt_handlers=rec_req.handlers())
+        if not a.is_established:
+            return {"error": "not established"}
+        q = Dataset()
+        q.QueryRetrieveLevel = "PATIENT"
+        q.PatientID = "*"
+        seen = 0
+        for status, _ in a.send_c_find(q, FIND, msg_id=1):
+            seen += 1
+            if seen == 3:
+                a.send_c_cancel(1, query_model=FIND)
+        if a.is_established:
+            a.release()
+        leaks = e2e.wait_quiet(before, 2 * t_o + 2.0)
+        return {"script": {"req": ["find-cancel", "release"], "acc": f"stream-cancel-{n_pending}", "acc_delay_ms": 0, "reject": False,
+                           "shake": False, "timeouts": t_o},
+                "thread_errors": list(thread_errors), "leaks": leaks, "responses": seen,
+                "req": {"hist": rec_req.history(a)}, "acc": {"hist": rec_acc.history(acc["a"]) if "a" in acc else []}}
+    finally:
+        threading.excepthook = old_hook
+        srv.shutdown()
+
+
 def run(ctx):
     ctx.rule = (
         "two real AEs on loopback, generated lifecycle scripts (echo*, release/abort/idle on the requestor; release/abort/"
@@ -189,6 +253,12 @@ def run(ctx):
     pool = mp.get_context("fork").Pool(processes=2, maxtasksperchild=1, initializer=_e2e_exit.no_join_at_exit)
     try:
         stray = pool.map(stray_pdu_scenario, ["release-rp", "invalid"] * ctx.n(2, 10))
+    finally:
+        pool.terminate()
+        pool.join()
+    pool = mp.get_context("fork").Pool(processes=2, maxtasksperchild=1, initializer=_e2e_exit.no_join_at_exit)
+    try:
+        stray += pool.map(stream_cancel_scenario, [150, 60] * ctx.n(1, 4))
     finally:
         pool.terminate()
         pool.join()
